@@ -188,6 +188,18 @@ func (ex *Exec) builtin(fr *Frame, st *State, site ssa.Instruction, b *ssa.Built
 		}
 	case "append":
 		return ex.builtinAppend(fr, st, site, common, args)
+	case "min", "max":
+		if _, _, ok := intBits(common.Args[0].Type()); ok {
+			r := args[0].L[0]
+			for _, a := range args[1:] {
+				if b.Name() == "min" {
+					r = Min(r, a.L[0])
+				} else {
+					r = Max(r, a.L[0])
+				}
+			}
+			return Value{T: common.Args[0].Type(), L: []*Term{r}}
+		}
 	case "recover":
 		return zeroValue(anyType)
 	case "close":
@@ -745,9 +757,11 @@ func mentions(t *Term, names map[string]bool) bool {
 // checkCallsite: assertions the enclosing function's contract attaches to calls of key.
 // Locals are resolved at the call site; the callee's arguments are visible as $name / $0..$n.
 func (ex *Exec) checkCallsite(fr *Frame, key string, callee *ssa.Function, args []Value, site ssa.Instruction, st *State) {
-	if !fr.top || ex.con == nil || site == nil || ex.recording != nil {
+	if ex.con == nil || site == nil || ex.recording != nil {
 		return
 	}
+	// clauses apply at calls made by the function under contract and by the un-annotated
+	// helpers inlined into it (an extracted helper keeps the obligation)
 	cls := ex.con.Callsites[key]
 	if len(cls) == 0 {
 		return
